@@ -78,9 +78,11 @@ CLAIMED = {
              "clean(join(cwd, trim_protocol(expand s))) — hence absolute and in normal form (C14) — fails only for an empty path, a "
              "failed expansion or '..' climbing above the root, and is idempotent from every cwd for results without '~'/'$'. The "
              "loop peeling '.'/'..' is verified against the string-level std::path model (parent, trim_first, mash on canonical "
-             "paths). One mirror is tied to both Memfs::abs and Stdfs::abs (real process cwd in a sandbox). Partial: 'every other VFS "
-             "method resolves its arguments through abs' is structural in the Memfs mirror and exercised by the C01 respelling streams, "
-             "not a separate theorem here.",
+             "paths). One mirror is tied to both Memfs::abs and Stdfs::abs (real process cwd in a sandbox). Last clause (Memfs/Spelling.v): "
+             "for every call of the Memfs alphabet and every state a history reaches, replacing each path argument by the string abs returns for it "
+             "changes neither the result nor the state (spelling_independent_reachable; the working directory and every remembered link target "
+             "consist of proper names in every reachable state, Memfs/CwdInv.v); an abs result that still contains '~' or '$' would be expanded "
+             "again and is left as it is. The symlink target is read relative to the link's directory and is not such an argument.",
         note="Trusted: Coq kernel; std::path/str models; environment as a finite map; extraction, driver, harness, differ.",
         technique="Coq proof (loop invariant over canonical component lists, denotation of cwd/q) + exhaustive correspondence on both backends",
         ref="§7 C05"),
